@@ -121,7 +121,7 @@ def run(eng, R):
              else "%s marks itself for update" % f.qualname)
 
     # ---- B2: raw staleness writes are followed by notify_parents ------------------------------------
-    R.rule("B2", "every assignment self._stale=True / self._frozen=False outside __init__ is followed on all normal paths by self.notify_parents()", 3)
+    R.rule("B2", "every assignment self._stale=True / self._frozen=False outside __init__ is followed on all normal paths by self.notify_parents()", 2)
     for cls, f in eng.functions_of_family(NodeBase):
         if f.name == "__init__":
             continue
